@@ -519,6 +519,9 @@ class Run:
             if "size" in (self.cell_ghost(v.z) or {}):
                 return self.cell_ghost(v.z)["size"] > 0
             raise Unsupported("truthiness of dict")
+        if k == "vmap":
+            x = z3.Const(fresh_name("x"), v.t.k.sort())
+            return z3.Exists([x], z3.Select(v.t.has(v.z), x))
         if k == "vset" or k == "set":
             sv = self.content(v) if k == "set" else v
             x = z3.Const(fresh_name("x"), sv.t.elem.sort())
@@ -812,6 +815,8 @@ class Run:
             from . import records
 
             return records.contains(self, c, x, heap)
+        if k == "obj":
+            return self.truthy(self.ctx.call_method(self, c, "__contains__", [x], {}, None, None))
         if k == "union":
             return z3.Or([z3.And(c.t.is_(c.z, m), self.contains(V(m, c.t.proj(c.z, m)), x, heap)) for m in c.t.members if m.kind != "none"])
         if k == "const" and isinstance(c.z, (tuple, list, set, frozenset)):
